@@ -45,7 +45,7 @@ for p in PROPS:
         "engine": "rbv",
         "level_claimed": {"category": level, "text": mod.EXPLANATION + " Decides these structural clauses on every path of the current tree, not the behavioural property as a whole; clauses not decided: " + "; ".join(getattr(mod, "NOT_DECIDED", [])),
                           "design_ref": "DESIGN.md section 4, " + p},
-        "level_note": "trusted base: rustc nightly front end and MIR construction (opt-level 0), the mirfacts serializer, the rbv rule implementation; instance floors and fail-closed anchors guard against vacuous passes; known findings are matched by exact obligation key",
+        "level_note": "trusted base: rustc nightly front end and MIR construction (opt-level 0), the mirfacts serializer, the rbv rule implementation; instance floors and fail-closed anchors guard against vacuous passes; known findings are matched by exact obligation key. The thorough tier extracts the facts afresh, runs the rules with their deeper bounds where they have any, and adds a self-validation to the evidence: every kept breaking change of the property (seeded/<id>, each confirmed to build, to pass the test suite and to change behaviour) is applied to a scratch copy and the quick check is run on the copy - reported, never part of the verdict on the tree",
         "technique": "static analysis: " + TECH.get(p, "rules over MIR facts"),
     })
 m = {
